@@ -17,7 +17,7 @@ RULE = (
     "source and tower. Hypothesis part: sizes up to 17, any profile, halo kind, modes below/at/above per axis, tower, source, an "
     "upper level. Oracle: the call either raises or returns fields of exactly the source's shape with X=i*dx, Y=j*dy, whose "
     "level-0 flux equals an independent numpy.fft low-pass of the padded source (dispersion) or of the point-reflected unit cell at "
-    "the tower (footprint) over the retained wavenumber set (exact: the sweep starts from the surface flux); with halo=0 the "
+    "the tower (footprint; also for a tower displaced from its node by (0.37, 0.62) cells, against the low-pass of a delta at that point) over the retained wavenumber set (exact: the sweep starts from the surface flux); with halo=0 the "
     "spectrum of the result equals that of the full-mode result strictly inside the cut-off and vanishes strictly outside; mode "
     "counts above the padded size equal the padded size (one axis above: per-axis clamp or the documented both-axes clamp accepted). "
     "Non-trivial = odd size in some axis or modes below the padded size or fractional halo; distinct = canonical JSON."
@@ -125,9 +125,27 @@ def check_case(case):
 
     one_axis_above = (modes[0] > nxe) != (modes[1] > nye)
     best = None
+    # a tower between grid nodes: at the surface its footprint is the low-pass of a delta at that very point
+    off = flx_off = None
+    if fpm:
+        off = ((im + 0.37) * dx, (jm + 0.62) * dy)
+        try:
+            _, _, flx_off = sut.solver()(q0, z, prof, dom, lv, modes=modes, halo=hv, meas_pt=off, footprint=True, precision="double")
+        except Exception as e:
+            out.label("raised-off-node:" + type(e).__name__)
+    best_off = None
     for cx in widths(px, dx):
         for cy in widths(py, dy):
             for per_axis in ((False, True) if one_axis_above else (False,)):
+                if flx_off is not None and np.shape(flx_off) == shape:
+                    ne_x, ne_y = nx + 2 * cx, ny + 2 * cy
+                    ex, ey = oracles.effective_modes(modes, ne_x, ne_y, per_axis)
+                    keep = oracles.retained(ne_y, ey)[:, None] & oracles.retained(ne_x, ex)[None, :]
+                    KX, KY = np.meshgrid(2 * np.pi * np.fft.fftfreq(ne_x, d=dx), 2 * np.pi * np.fft.fftfreq(ne_y, d=dy))
+                    r0 = np.fft.ifft2(keep * np.exp(-1j * (KX * (off[0] + cx * dx) + KY * (off[1] + cy * dy)))).real
+                    r0 = r0[cy : cy + ny, cx : cx + nx]
+                    e = tol.maxabs(r0 - flx_off[0]) / max(tol.maxabs(r0), 1e-300)
+                    best_off = e if best_off is None else min(best_off, e)
                 _, ref = oracles.closed_form(q0, z, (1.0, 0.5, 1.0, 1.0, 1.0), dom, [0], modes, mp, 0.0, fpm, cx, cy,
                                              tower_cell=(im, jm), per_axis_clamp=per_axis)
                 e = tol.maxabs(ref[0] - flx[0]) / max(tol.maxabs(ref[0]), 1.0 if fpm else tol.maxabs(q0), 1e-300)
@@ -136,6 +154,13 @@ def check_case(case):
         out.bad(f"level-0 flux is not the low-pass of the {'unit cell at the tower' if fpm else 'source'} on the source grid: "
                 f"relative difference {best:.3e} (size {nx}x{ny}, padded {nxe}x{nye}, modes {modes}, halo {hv})")
     out.detail["registration_err"] = best
+    if flx_off is not None and np.shape(flx_off) != shape:
+        out.bad(f"footprint for a tower between nodes has shape {np.shape(flx_off)}, the source grid is {shape[1:]}")
+    elif best_off is not None:
+        out.label("off-node-tower-registered")
+        if not best_off <= 1e-11:
+            out.bad(f"footprint for a tower between grid nodes ({off}) is not registered at that point: its surface level differs "
+                    f"from the low-pass of a delta there by {best_off:.3e} (size {nx}x{ny}, padded {nxe}x{nye}, modes {modes}, halo {hv})")
 
     # ---- clamp: more modes than the padded grid holds == exactly as many as it holds
     if modes[0] >= nxe and modes[1] >= nye:
